@@ -810,7 +810,7 @@ def main(rep: Report, replay: dict | None) -> None:
     else:
         res = run_mc(rep, "quick", 1, 1, False, False, 300, "rules")
         check_rules(rep, res[0].stdout)
-        res = run_mc(rep, "thorough", 3, 24, True, True, 840, "thorough/3ops")
+        res = run_mc(rep, "thorough", 3, 24, True, "sample", 840, "thorough/3ops")
         t0 = _lap(rep, "tlc thorough/3ops", t0)
         replay_edges(rep, res, "thorough/3ops")
         t0 = _lap(rep, "replay thorough/3ops", t0)
